@@ -3,6 +3,7 @@
 package node
 
 import (
+	"strconv"
 	"encoding/json"
 	"fmt"
 	"os"
@@ -578,7 +579,15 @@ func runWalk(res *mbt.Result, w *World, me int, walk *xWalk, cmpFrom int, myBid 
 }
 
 func envWorld() (*World, int, string) {
-	w := NewWorld([]int64{1, 1, 1, 1})
+	powers := []int64{1, 1, 1, 1}
+	if ps := os.Getenv("NODE_POWERS"); ps != "" {
+		powers = nil
+		for _, f := range strings.Split(ps, ",") {
+			p, _ := strconv.ParseInt(f, 10, 64)
+			powers = append(powers, p)
+		}
+	}
+	w := NewWorld(powers)
 	me := mbt.EnvInt("NODE_ME", 2)
 	myBid := os.Getenv("NODE_MYBID")
 	if myBid == "" {
